@@ -35,7 +35,32 @@ def random_cases(n, rng):
         if mfn != "init":
             fs = [f.replace("init", mfn.split(".")[0]) if rng.random() < 0.5 else f for f in fs]
         fs = sorted(set(f for f in fs if f != src))
-        rows.append({"id": "r%d" % k, "mode": mode, "req": req, "src": src, "mfn": mfn, "fs": fs})
+        # bias the layout towards the request: populate candidates of the (python-normalised) head
+        if rng.random() < 0.8:
+            sd = os.path.dirname(src)
+            if head.startswith("@pkg"):
+                base = "lib"
+            elif head.startswith("@self"):
+                base = sd
+            else:
+                up = sd
+                if mode == "luau" and os.path.basename(src).split(".")[0] == "init":
+                    up = os.path.dirname(sd)
+                base = os.path.normpath(os.path.join(up or ".", head))
+            if not base.startswith(".."):
+                base = "" if base == "." else base
+                stem_path = os.path.normpath(os.path.join(base or ".", tail))
+                for ext in (".lua", ".luau"):
+                    if stem_path.endswith(ext):
+                        stem_path = stem_path[: -len(ext)]
+                if stem_path.endswith("/init"):
+                    stem_path = stem_path[:-5]
+                f0 = mfn.split(".")[0]
+                cand = [stem_path + x for x in ("", ".luau", ".lua", "/" + f0, "/" + f0 + ".luau", "/" + f0 + ".lua")]
+                fs = fs[:2] + rng.sample(cand, rng.randint(1, 3))
+                fs = sorted(set(f for f in fs if f != src and not f.startswith(".")))
+        prefix = "./" if rng.random() < 0.25 else ""
+        rows.append({"id": "r%d" % k, "mode": mode, "req": req, "src": src, "mfn": mfn, "fs": fs, "prefix": prefix})
     return rows
 
 
@@ -59,7 +84,8 @@ def judge(rep, obs_path, wd, label):
             kind = "convert-panic" if o["got2"].startswith("!panic") or o["newreq"].startswith("!panic") else "convert"
             sig = {"kind": kind, "mode": o["mode"], "target": o["target"], "req": o["req"], "src": o["src"], "fs": o["fs"],
                    "resolved": v["expected"], "newreq": o["newreq"], "got2": o["got2"],
-                   "spec_reresolved": v["spec_reresolved"], "strip_shadow": v["strip_shadow"]}
+                   "spec_reresolved": v["spec_reresolved"], "strip_shadow": v["strip_shadow"],
+                   "prefix": o.get("prefix", ""), "via_alias": o["req"].startswith("@pkg")}
             rep.violation(sig, o)
     return res, len(verdicts), nconv
 
@@ -87,7 +113,7 @@ def run(tier):
     v, nobs, nconv = judge(rep, opath, wd, "enumerated")
     # random I->S
     nrand = 3000 if tier == "quick" else 40000
-    rc = random_cases(nrand, rng)
+    rc = random_cases(nrand, rng) + vlib.pinned_reproducers(PID)
     rcp = os.path.join(wd, "rcases.ndjson")
     write_ndjson(rcp, rc)
     rop = os.path.join(wd, "robs.ndjson")
@@ -128,7 +154,7 @@ def replay(path, tier):
     rep = Report(PID, tier, "model_checking")
     with open(path) as f:
         case = json.load(f)["case"]
-    c = {k: case[k] for k in ("id", "mode", "req", "src", "mfn", "fs")}
+    c = {k: case[k] for k in ("id", "mode", "req", "src", "mfn", "fs", "prefix") if k in case}
     cp = os.path.join(rep.wd, "replay-cases.ndjson")
     write_ndjson(cp, [c])
     op = os.path.join(rep.wd, "replay-obs.ndjson")
